@@ -97,7 +97,12 @@ func genMiniBatch(g *Gen, cc *convertCtx) *miniBatch {
 	if mb.lineOK {
 		unitMs = mb.prec.unitMs()
 	}
-	base := now + int64(g.r.Intn(40*3600)-20*3600)*1000
+	// (at least a minute away from now: an unset timestamp is stored as "now" and must not collide with a sent one)
+	off := int64(60+g.r.Intn(20*3600-60)) * 1000
+	if g.r.Intn(2) == 0 {
+		off = -off
+	}
+	base := now + off
 	base -= base % unitMs
 	zeroUsed := false
 	for i := 0; i < n; i++ {
